@@ -39,16 +39,32 @@ func writeFont(f *sfnt.Font) (data []byte, err error) {
 	return buf.Bytes(), nil
 }
 
-// readFont calls sfnt.Read; a panic is an observation.
-func readFont(data []byte) (f *sfnt.Font, err error) {
-	defer func() {
-		if e := recover(); e != nil {
-			f = nil
-			err = fmt.Errorf("panic: %v", e)
-		}
+// readFont calls sfnt.Read; a panic is an observation, and so is a call that
+// does not return within the time budget (the goroutine is abandoned).
+func readFont(data []byte) (*sfnt.Font, error) {
+	type result struct {
+		f   *sfnt.Font
+		err error
+	}
+	ch := make(chan result, 1)
+	go func() {
+		defer func() {
+			if e := recover(); e != nil {
+				ch <- result{nil, fmt.Errorf("panic: %v", e)}
+			}
+		}()
+		f, err := sfnt.Read(bytes.NewReader(data))
+		ch <- result{f, err}
 	}()
-	return sfnt.Read(bytes.NewReader(data))
+	select {
+	case r := <-ch:
+		return r.f, r.err
+	case <-time.After(readBudget):
+		return nil, fmt.Errorf("panic: sfnt.Read did not return within %v", readBudget)
+	}
 }
+
+const readBudget = 30 * time.Second
 
 func isPanic(err error) bool { return err != nil && strings.HasPrefix(err.Error(), "panic: ") }
 
@@ -149,7 +165,9 @@ func (f *failure) String() string {
 }
 
 // diffFields names the top-level Font fields in which a and b differ.
-func diffFields(a, b *sfnt.Font) []string {
+func diffFields(a, b *sfnt.Font) []string { return diffFieldsOpt(a, b, false) }
+
+func diffFieldsOpt(a, b *sfnt.Font, equateEmpty bool) []string {
 	var out []string
 	va, vb := reflect.ValueOf(a).Elem(), reflect.ValueOf(b).Elem()
 	for i := 0; i < va.NumField(); i++ {
@@ -162,7 +180,7 @@ func diffFields(a, b *sfnt.Font) []string {
 			reflect.ValueOf(fa).Elem().Field(i).Set(va.Field(i))
 			reflect.ValueOf(fb).Elem().Field(i).Set(vb.Field(i))
 		}
-		if deepDiff(fa, fb) != "" {
+		if deepDiffOpt(fa, fb, equateEmpty) != "" {
 			out = append(out, name)
 		}
 	}
@@ -216,7 +234,7 @@ func oracleValue(f *sfnt.Font) (*cycleResult, []*failure) {
 	fails = append(fails, lossless(f, f1)...)
 	if isCanonical(f) == "" {
 		if d := deepDiffOpt(f, f1, true); d != "" {
-			fails = append(fails, &failure{"canonical-not-preserved:" + strings.Join(diffFields(f, f1), ","), clip(d, 600)})
+			fails = append(fails, &failure{"canonical-not-preserved:" + strings.Join(diffFieldsOpt(f, f1, true), ","), clip(d, 600)})
 		} else if res.W1 != nil && !bytes.Equal(res.W1, w0) {
 			fails = append(fails, &failure{"canonical-bytes-differ", fmt.Sprintf("first difference at byte %d", firstDiff(res.W1, w0))})
 		}
@@ -307,9 +325,11 @@ func oracleBytes(b []byte) (f0 *sfnt.Font, res *cycleResult, fails []*failure) {
 	res.F1 = f1
 	if d := deepDiff(f0, f1); d != "" {
 		fields := diffFields(f0, f1)
-		if weightBoldFinding(f0, f1, fields) {
-			// recorded finding; the property is then checked one generation later
-			fails = append(fails, &failure{sigWeightBold, clip(d, 300)})
+		if sigs := recordedFindings(f0, f1, fields); sigs != nil {
+			// recorded findings; the property is then checked one generation later
+			for _, sg := range sigs {
+				fails = append(fails, &failure{sg, clip(d, 300)})
+			}
 			return f0, res, append(fails, fixedPoint(f1, &cycleResult{})...)
 		}
 		fails = append(fails, &failure{"not-fixed-point:" + strings.Join(fields, ","), clip(d, 600)})
@@ -374,7 +394,11 @@ func lossless(f, f1 *sfnt.Font) []*failure {
 			bad("Outlines.Widths", "%s", clip(d, 300))
 		}
 		if d := valDiff(o.Names, o1.Names, true); d != "" {
-			bad("Outlines.Names", "%s", clip(d, 300))
+			if customNameCount(o.Names) > maxCustomNames {
+				fails = append(fails, &failure{sigPostNames, clip(d, 200)})
+			} else {
+				bad("Outlines.Names", "%s", clip(d, 300))
+			}
 		}
 		if d := valDiff(o.Tables, o1.Tables, true); d != "" {
 			bad("Outlines.Tables", "%s", clip(d, 300))
